@@ -21,7 +21,7 @@ import (
 	"github.com/named-data/ndnd/std/utils"
 )
 
-const lpPacketOverhead = 1 + 3
+const lpPacketOverhead = 1 + 3 + 1 + 3 // LpPacket and Fragment (Type + Length of up to 2^16 each)
 const pitTokenOverhead = 1 + 1 + 6
 const congestionMarkOverhead = 3 + 1 + 8
 
@@ -112,7 +112,7 @@ func (l *NDNLPLinkService) SetOptions(options NDNLPLinkServiceOptions) {
 }
 
 func (l *NDNLPLinkService) computeHeaderOverhead() {
-	l.headerOverhead = lpPacketOverhead // LpPacket (Type + Length of up to 2^16)
+	l.headerOverhead = lpPacketOverhead // LpPacket and Fragment headers
 
 	if l.options.IsFragmentationEnabled {
 		l.headerOverhead += 1 + 1 + 8 // Sequence
